@@ -92,7 +92,10 @@ def _round(args):
 
     pid, tier, sd = args
     mod = importlib.import_module(f"harness.suites.{pid.lower()}")
-    return mod.run(tier, sd)
+    suites, findings = mod.run(tier, sd)
+    for f in findings:
+        f.origin = {"tier": tier, "seed": sd, "via": "run"}
+    return suites, findings
 
 
 def match_known(finding, known):
@@ -129,6 +132,8 @@ def run_check(pid, tier, seed):
     infra_error = None
     try:
         suites, findings = mod.run(tier, seed)
+        for f in findings:
+            f.origin = {"tier": tier, "seed": seed, "via": "run"}
     except common.DriverError as e:
         proof_failures.append(f"model driver failed: {e}")
     except Exception:
@@ -167,7 +172,10 @@ def run_check(pid, tier, seed):
     # correspondence or proof broken -> failing-input search on the implementation
     if (broken or proof_failures) and hasattr(mod, "search"):
         try:
-            findings = list(findings) + list(mod.search(tier, seed, broken))
+            found = list(mod.search(tier, seed, broken))
+            for f in found:
+                f.origin = {"tier": tier, "seed": seed, "via": "search"}
+            findings = list(findings) + found
         except Exception:
             print(traceback.format_exc(), file=sys.stderr)
 
@@ -176,6 +184,8 @@ def run_check(pid, tier, seed):
         for extra in (1, 2, 3):
             try:
                 _, more = mod.run("quick", seed + 1000 * extra)
+                for f in more:
+                    f.origin = {"tier": "quick", "seed": seed + 1000 * extra, "via": "run"}
             except Exception:
                 print(traceback.format_exc(), file=sys.stderr)
                 break
@@ -204,7 +214,8 @@ def run_check(pid, tier, seed):
     for f, e in known_hits:
         out_lines.append(f"KNOWN-FINDING: property={pid} {e.get('what', f.what)}")
     for f in unlisted:
-        path = write_replay(pid, "counterexample", {"what": f.what, "signature": f.signature, "replay": f.replay})
+        path = write_replay(pid, "counterexample", {"what": f.what, "signature": f.signature, "replay": f.replay,
+                                                    "origin": getattr(f, "origin", {"tier": tier, "seed": seed, "via": "run"}), "replay_hash": common.chash(jsonable(f.replay))})
         violations.append(f"VIOLATION property={pid} replay={path}")
     if (broken or proof_failures) and not unlisted:
         # the property is no longer shown to hold, and no (unlisted) failing input was found
@@ -212,6 +223,7 @@ def run_check(pid, tier, seed):
             "unchecked": [s.name for s in broken] + proof_failures,
             "disagreements": [d for s in broken for d in s.disagreements[:5] if d],
             "note": "correspondence/proof obligation no longer checks; the failing-input search on the implementation found no counterexample",
+            "origin": {"tier": tier, "seed": seed, "via": "run"},
         }
         kind = "proof-broken" if proof_failures and not broken else "correspondence-broken"
         path = write_replay(pid, kind, body)
@@ -265,12 +277,42 @@ def run_check(pid, tier, seed):
 
 
 def run_replay(pid, path):
+    """Re-decide a recorded violation on the current tree. A suite's own replay function is used when it gives a definite
+    answer; otherwise the run the finding came from is regenerated (all stimuli derive from tier and seed) and the finding
+    must recur — same signature, and the same stimulus when one was recorded — to count as failing."""
     mod = importlib.import_module(f"harness.suites.{pid.lower()}")
     body = json.load(open(path if os.path.isabs(path) else os.path.join(VERIF, path)))
-    if not hasattr(mod, "replay"):
-        print(f"[{pid}] no replay function")
-        return 2
-    ok, msg = mod.replay(body)
+    answer = None
+    if hasattr(mod, "replay") and body.get("kind") == "counterexample":
+        try:
+            answer = mod.replay(body)
+        except Exception:
+            answer = None
+        if answer is not None and str(answer[1]).startswith("re-run"):
+            answer = None
+    if answer is None:
+        origin = body.get("origin") or {"tier": "quick", "seed": 0, "via": "run"}
+        obligations, proof_failures, _ = lean_obligations(pid, "quick")
+        try:
+            suites, findings = mod.run(origin["tier"], origin["seed"])
+            broken = [s for s in suites if not s.ok]
+            if origin.get("via") == "search" or ((broken or proof_failures) and hasattr(mod, "search")):
+                findings = list(findings) + list(mod.search(origin["tier"], origin["seed"], broken))
+        except Exception:
+            print(traceback.format_exc(), file=sys.stderr)
+            print(f"INFRASTRUCTURE-ERROR property={pid} (harness exception during replay, see stderr)")
+            return 2
+        if body.get("kind") == "counterexample":
+            want_sig = common.chash(body.get("signature"))
+            want_rep = body.get("replay_hash")
+            same = [f for f in findings if common.chash(f.signature) == want_sig]
+            exact = [f for f in same if want_rep is None or common.chash(jsonable(f.replay)) == want_rep]
+            hit = exact or same
+            answer = (not hit, (hit[0].what if hit else "the recorded failing input no longer fails (regenerated from tier and seed)"))
+        else:
+            still = [s.name for s in broken] + proof_failures
+            answer = (not still, ("still unchecked: " + ", ".join(still)) if still else "proof obligations and correspondence check again")
+    ok, msg = answer
     print(f"[{pid}] replay {path}: {'property holds on this input' if ok else 'FAILS'} — {msg}")
     if not ok:
         print(f"VIOLATION property={pid} replay={path}")
